@@ -49,6 +49,11 @@ var items = []item{
 	{"codec/dagjson/unmarshal.go", "const", "defaultMaxDepth", "go_json_defaultMaxDepth", "Z"},
 	{"codec/dagcbor/marshal.go", "func", "uintLength", "go_uintLength", ""},
 	{"traversal/selector/matcher.go", "func", "sliceBounds", "go_sliceBounds", ""},
+	// the comparison closures handed to sort.Slice under `case codec.MapSortMode_X:` (Name = enclosing func / case label)
+	{"codec/dagcbor/marshal.go", "sortless", "marshalMap/codec.MapSortMode_RFC7049", "go_cbor_less_rfc7049", ""},
+	{"codec/dagcbor/marshal.go", "sortless", "marshalMap/codec.MapSortMode_Lexical", "go_cbor_less_lexical", ""},
+	{"codec/dagjson/marshal.go", "sortless", "Marshal/codec.MapSortMode_RFC7049", "go_json_less_rfc7049", ""},
+	{"codec/dagjson/marshal.go", "sortless", "Marshal/codec.MapSortMode_Lexical", "go_json_less_lexical", ""},
 	{"storage/sharding/sharding.go", "func", "Shard_r133", "go_Shard_r133", ""},
 	{"storage/sharding/sharding.go", "func", "Shard_r122", "go_Shard_r122", ""},
 	{"storage/sharding/sharding.go", "func", "Shard_r12", "go_Shard_r12", ""},
@@ -69,6 +74,7 @@ type tr struct {
 	env    map[string]map[string]string // range variable -> field -> literal (current row)
 	strs   map[string]bool              // string-typed identifiers in scope
 	outp   string                       // name of the *[]string out-parameter, if any
+	subst  map[string]string            // printed source of an expression -> Coq variable of type string (closures)
 }
 
 type transErr struct{ msg string }
@@ -244,7 +250,27 @@ func strLit(s string) string {
 	return "([" + strings.Join(parts, "; ") + "]%N : list N)"
 }
 
+func (t *tr) isStr(e ast.Expr) bool {
+	if t.subst != nil {
+		if _, ok := t.subst[srcOf(t.fset, e)]; ok {
+			return true
+		}
+	}
+	if id, ok := e.(*ast.Ident); ok && t.strs[id.Name] {
+		return true
+	}
+	if p, ok := e.(*ast.ParenExpr); ok {
+		return t.isStr(p.X)
+	}
+	return false
+}
+
 func (t *tr) expr(e ast.Expr) string {
+	if t.subst != nil {
+		if v, ok := t.subst[srcOf(t.fset, e)]; ok {
+			return v
+		}
+	}
 	switch e := e.(type) {
 	case *ast.ParenExpr:
 		return t.expr(e.X)
@@ -273,6 +299,27 @@ func (t *tr) expr(e ast.Expr) string {
 			return "(negb " + t.expr(e.X) + ")"
 		}
 	case *ast.BinaryExpr:
+		if t.isStr(e.X) && t.isStr(e.Y) { // Go compares strings bytewise (GoSem.str_ltb / str_eqb)
+			x, y := t.expr(e.X), t.expr(e.Y)
+			switch e.Op {
+			case token.LSS:
+				return fmt.Sprintf("(str_ltb %s %s)", x, y)
+			case token.GTR:
+				return fmt.Sprintf("(str_ltb %s %s)", y, x)
+			case token.LEQ:
+				return fmt.Sprintf("(negb (str_ltb %s %s))", y, x)
+			case token.GEQ:
+				return fmt.Sprintf("(negb (str_ltb %s %s))", x, y)
+			case token.EQL:
+				return fmt.Sprintf("(str_eqb %s %s)", x, y)
+			case token.NEQ:
+				return fmt.Sprintf("(negb (str_eqb %s %s))", x, y)
+			}
+			t.die(e.Pos(), "unsupported string operator")
+		}
+		if t.isStr(e.X) != t.isStr(e.Y) {
+			t.die(e.Pos(), "comparison of a string with a non-string")
+		}
 		if f, ok := binop[e.Op]; ok {
 			return fmt.Sprintf("(%s %s %s)", f, t.expr(e.X), t.expr(e.Y))
 		}
@@ -609,6 +656,78 @@ func (t *tr) fn(fd *ast.FuncDecl, coq string) string {
 	return fmt.Sprintf("Definition %s %s :=\n  %s.\n", coq, strings.Join(params, " "), body)
 }
 
+// sortLess translates the closure `func(i, j int) bool {...}` handed to sort.Slice(<s>, ...) directly under
+// `case <label>:` inside function fname: <s>[i].key and <s>[j].key become the two string parameters.
+func (t *tr) sortLess(fname, label, coq string) (string, ast.Node) {
+	var fd *ast.FuncDecl
+	for _, d := range t.file.Decls {
+		if f, ok := d.(*ast.FuncDecl); ok && f.Name.Name == fname && f.Recv == nil {
+			fd = f
+		}
+	}
+	if fd == nil {
+		panic(transErr{"function " + fname + " not found"})
+	}
+	var lits []*ast.FuncLit
+	var slices []string
+	ast.Inspect(fd.Body, func(n ast.Node) bool {
+		cc, ok := n.(*ast.CaseClause)
+		if !ok {
+			return true
+		}
+		match := false
+		for _, l := range cc.List {
+			if srcOf(t.fset, l) == label {
+				match = true
+			}
+		}
+		if !match {
+			return true
+		}
+		if len(cc.List) != 1 {
+			panic(transErr{"case " + label + " shares its clause with other labels"})
+		}
+		for _, st := range cc.Body {
+			es, ok := st.(*ast.ExprStmt)
+			if !ok {
+				continue
+			}
+			call, ok := es.X.(*ast.CallExpr)
+			if !ok || srcOf(t.fset, call.Fun) != "sort.Slice" || len(call.Args) != 2 {
+				continue
+			}
+			if fl, ok := call.Args[1].(*ast.FuncLit); ok {
+				lits = append(lits, fl)
+				slices = append(slices, srcOf(t.fset, call.Args[0]))
+			}
+		}
+		return true
+	})
+	if len(lits) != 1 {
+		panic(transErr{fmt.Sprintf("expected exactly one sort.Slice closure under case %s in %s, found %d", label, fname, len(lits))})
+	}
+	fl := lits[0]
+	var ps []string
+	for _, f := range fl.Type.Params.List {
+		for _, n := range f.Names {
+			ps = append(ps, n.Name)
+		}
+	}
+	if len(ps) != 2 {
+		panic(transErr{"closure does not take two indices"})
+	}
+	t.env = map[string]map[string]string{}
+	t.strs = map[string]bool{}
+	t.outp = ""
+	t.subst = map[string]string{
+		fmt.Sprintf("%s[%s].key", slices[0], ps[0]): "v_ki",
+		fmt.Sprintf("%s[%s].key", slices[0], ps[1]): "v_kj",
+	}
+	defer func() { t.subst = nil }()
+	body := t.stmts(fl.Body.List, "  ")
+	return fmt.Sprintf("Definition %s (v_ki v_kj : list N) : bool :=\n  %s.\n", coq, body), fl
+}
+
 func srcOf(fset *token.FileSet, n ast.Node) string {
 	var sb strings.Builder
 	printer.Fprint(&sb, fset, n)
@@ -659,6 +778,11 @@ func main() {
 				}
 				fmt.Fprintf(&sb, "(* %s: const %s *)\nDefinition %s : %s := (%d)%%%s.\n\n", it.File, it.Name, it.Coq, it.Typ, v, it.Typ)
 				entries = append(entries, manifestEntry{it, it.File, fmt.Sprintf("%x", sha256.Sum256([]byte(fmt.Sprint(v))))})
+			case "sortless":
+				parts := strings.SplitN(it.Name, "/", 2)
+				def, node := t.sortLess(parts[0], parts[1], it.Coq)
+				fmt.Fprintf(&sb, "(* %s: sort.Slice closure under case %s in func %s *)\n%s\n", it.File, parts[1], parts[0], def)
+				entries = append(entries, manifestEntry{it, t.fset.Position(node.Pos()).String(), fmt.Sprintf("%x", sha256.Sum256([]byte(srcOf(t.fset, node))))})
 			case "func":
 				var fd *ast.FuncDecl
 				for _, d := range t.file.Decls {
